@@ -511,6 +511,11 @@ func fieldOf(v *Term, name string) *Term {
 	if v.Op == "const" && strings.HasPrefix(v.Aux, "zero") {
 		return &Term{Op: "const", Aux: "zero:." + name}
 	}
+	if v.Op == "load" && len(v.Args) == 1 {
+		// a field of a struct value loaded from memory is the content of that field's cell in the same memory
+		// version: (*p).f and p.f get one normal form, whichever way the code copies the struct
+		return &Term{Op: "load", Aux: v.Aux, Args: []*Term{{Op: "faddr", Aux: name, Args: []*Term{v.Args[0]}}}}
+	}
 	return &Term{Op: "field", Aux: name, Args: []*Term{v}}
 }
 
